@@ -440,5 +440,34 @@ def run(F, rep, tier):
             rep.ok('R10.5', fn, 'to_isize + %d error exits' % len(errs))
         else:
             rep.viol('R10.5', fn + '|errors', '%s lost an error exit for non-integer / non-numeric indices (to_isize calls %d, error constructors %d)' % (fn, len(toi), len(errs)), b.loc(0))
+    # ---------------- R10.7
+    rep.rule('R10.7', 'stream implementations that override pythonic_index_isize / pythonic_slice answer relative to the current position: '
+             'no path reads the backing data and produces an element without reading every field that next() advances (same analysis as '
+             'C11/R11.7, restricted to the two indexing entry points)')
+    from .streamfields import next_writes, reads, cursor_free_paths
+    n107 = 0
+    for imp in F.impls_of('core::Stream'):
+        ty = imp['self_ty']
+        base = ty.split('<')[0]
+        its = [i for i in F.impls if i['trait'] == 'std::iter::Iterator' and i['self_ty'] == ty]
+        nxt = F.impl_fn(its[0], 'next') if its else None
+        adt = F.adts.get(base)
+        if not nxt or not F.has_fn(nxt) or not adt:
+            continue
+        allf = ['f%d:%s' % (i, f['name']) for i, f in enumerate(adt['variants'][0]['fields'])]
+        w = next_writes(F.body(nxt))
+        for m in ('pythonic_index_isize', 'pythonic_slice'):
+            fn = F.impl_fn(imp, m)
+            if not fn or not F.has_fn(fn):
+                continue
+            n107 += 1
+            fb = F.body(fn)
+            r, _whole = reads(fb, allf)
+            free = cursor_free_paths(fb, allf, w) if (w and r) else []
+            if free or (r and not w <= r):
+                rep.viol('R10.7', '%s|%s|cursor' % (base, m), '%s::%s can index the backing data without consulting %s, the position next() advances: `s[i]` on a partially consumed stream is answered from the start (or, for negative i, bounded by the start) of the underlying data' % (ty, m, sorted(w)), fb.loc(free[0][0]) if free else fb.loc(0))
+            else:
+                rep.ok('R10.7', '%s::%s' % (base, m), 'next advances %s, override reads %s' % (sorted(w) or 'nothing', sorted(r)))
+    rep.floor('R10.7', 'index/slice overrides', n107, 3)
     rep.undecided += ['clamped_pythonic_index equals Python\'s clamp as a function of (i, len)', 'stream index/slice values']
     return META
